@@ -32,7 +32,105 @@ func runC21(c *Ctx) {
 	}
 	if r := c.NeedFunc(m, "kgo.brokerCxn.requestAPIVersions"); r != nil {
 		c21apiVersions(c, m, r)
+		c21apiVersionsUserMax(c, m, r)
 	}
+	c21versionsStore(c, m)
+}
+
+// c21versionsStore: the table a connection's ApiVersions response advertised
+// replaces the broker's table unconditionally (a plain Store): a later
+// connection of the same broker object (another connection kind, a reconnect
+// after a downgrade) may advertise smaller ranges, and requests on it are
+// clamped against broker.versions.
+func c21versionsStore(c *Ctx, m *Module) {
+	rule := "broker-versions-stored-per-connection"
+	fv := m.Field("kgo", "broker", "versions")
+	if fv == nil {
+		c.Undecided("anchor", "kgo.broker.versions", 0, m, "field not found")
+		return
+	}
+	n := 0
+	for _, s := range StoreSites(m.FuncsIn("kgo"), fv) {
+		if s.Kind == "complit" {
+			continue
+		}
+		n++
+		cons := s.Fn.Key + ": broker.versions " + s.Kind
+		switch s.Fn.Key {
+		case "kgo.broker.storeVersions":
+			okArg := false
+			if id, ok := unparen(s.RHS).(*ast.Ident); ok && len(s.Fn.Decl.Type.Params.List) == 1 {
+				for _, nm := range s.Fn.Decl.Type.Params.List[0].Names {
+					if s.Fn.Info().Uses[id] == s.Fn.Info().Defs[nm] {
+						okArg = true
+					}
+				}
+			}
+			g := s.Fn.GraphFor(s.Node)
+			l, okl := g.LocOf(s.Node)
+			if !okl {
+				l, okl = g.LocOf(enclosingStmt(s.Fn.Decl.Body, s.Node))
+			}
+			uncond := okl && len(g.FactsAt(l)) == 0
+			c.Check(s.Kind == "atomic:Store" && okArg && uncond, rule, cons, s.Node.Pos(), m, "unconditional Store of the given table", "storeVersions does not unconditionally replace the broker's version table ("+s.Kind+"): the table of the first connection is kept, and requests on a later connection that advertised smaller ranges are written above the broker's advertised maximum")
+		default:
+			c.Fail(rule, cons, s.Node.Pos(), m, "unexpected writer of broker.versions")
+		}
+	}
+	c.Floor(rule+"/stores", n, 1)
+}
+
+// c21apiVersionsUserMax: the ApiVersions request itself honours the user's
+// MaxVersions for key 18, including a cap of exactly 0.
+func c21apiVersionsUserMax(c *Ctx, m *Module, f *Func) {
+	rule := "apiversions-honours-user-max"
+	info := f.Info()
+	g := f.Graph()
+	var lookup *ast.CallExpr
+	for _, call := range callsNamed(f.Decl.Body, info, "LookupMaxKeyVersion", false) {
+		lookup = call
+	}
+	if lookup == nil {
+		c.Fail(rule, f.Key+": LookupMaxKeyVersion(18)", f.Pos(), m, "the user's MaxVersions is not consulted for the ApiVersions request")
+		return
+	}
+	v, isC := int64(-1), false
+	if len(lookup.Args) == 1 {
+		v, isC = constInt(info, lookup.Args[0])
+	}
+	c.Check(isC && v == 18, rule, f.Key+": LookupMaxKeyVersion(18)", lookup.Pos(), m, "", "the lookup is not for key 18 (ApiVersions)")
+	// the store maxVersion = userMax is guarded only by `exists` and a non-negativity test of userMax
+	mv := localObj(f, "maxVersion")
+	n := 0
+	ast.Inspect(f.Decl.Body, func(x ast.Node) bool {
+		as, ok := x.(*ast.AssignStmt)
+		if !ok || len(as.Lhs) != 1 || len(as.Rhs) != 1 {
+			return true
+		}
+		id, ok := as.Lhs[0].(*ast.Ident)
+		if !ok || info.Uses[id] != mv || exprStr(as.Rhs[0]) != "userMax" {
+			return true
+		}
+		n++
+		l, _ := g.LocOf(as)
+		var bad []string
+		for _, ft := range g.FactsAt(l) {
+			s := nosp(exprStr(ft.Cond))
+			switch {
+			case ft.Val && s == "exists":
+			case ft.Val && (s == "userMax>=0" || s == "0<=userMax" || s == "userMax>-1"):
+			case !ft.Val && (s == "userMax<0" || s == "!exists"):
+			case strings.Contains(s, "tries") || strings.Contains(s, "maxVersions"):
+			default:
+				if strings.Contains(s, "userMax") {
+					bad = append(bad, s)
+				}
+			}
+		}
+		c.Check(len(bad) == 0, rule, f.Key+": maxVersion = userMax", as.Pos(), m, "for every non-negative cap, including 0", "the user's cap is applied only under "+strings.Join(bad, ", ")+": a MaxVersions cap of v0 for ApiVersions (kversion.V0_10_x) is ignored and the request is written at v4")
+		return true
+	})
+	c.Check(n == 1, rule, f.Key+"#cap-applied", f.Pos(), m, "", "maxVersion = userMax not found")
 }
 
 func c21handle(c *Ctx, m *Module, f *Func) {
